@@ -3,6 +3,7 @@
 package chain
 
 import (
+	"io"
 	"crypto/sha256"
 	"encoding/hex"
 	"encoding/json"
@@ -120,6 +121,9 @@ func newApp() (*c4eapp.App, appparams.EncodingConfig) {
 // defaults). Operators legitimately differ in them, e.g. --x-crisis-skip-assert-invariants.
 var AppOptions map[string]interface{}
 
+// DebugLogger gives the next applications a logger that writes every level (to nowhere).
+var DebugLogger bool
+
 // InvCheckPeriod is the --inv-check-period of the next applications (0 = never).
 var InvCheckPeriod uint
 
@@ -135,7 +139,12 @@ func newAppDB(db dbm.DB) (*c4eapp.App, appparams.EncodingConfig, dbm.DB) {
 		// the node binary hands the setting to baseapp as well (it only matters for CheckTx)
 		bopts = append(bopts, baseapp.SetMinGasPrices(v))
 	}
-	app := c4eapp.New(log.NewNopLogger(), db, nil, true, map[int64]bool{}, c4eapp.DefaultNodeHome, InvCheckPeriod, enc, optMap(AppOptions), bopts...)
+	var logger log.Logger = log.NewNopLogger()
+	if DebugLogger {
+		// a node running with log_level debug: every log call formats its values
+		logger = log.NewTMLogger(log.NewSyncWriter(io.Discard))
+	}
+	app := c4eapp.New(logger, db, nil, true, map[int64]bool{}, c4eapp.DefaultNodeHome, InvCheckPeriod, enc, optMap(AppOptions), bopts...)
 	return app, enc, db
 }
 
